@@ -514,7 +514,16 @@ class MessageManager(interfaces.TokenInterface, interfaces.MessageManager):
                 remote == message.remote for (remote, _) in self._active_exchanges
             )
             self.log.debug("Message to %s put into backlog", message.remote)
-            self._backlogs[message.remote].append((message, messageerror_monitor))
+            entry = (message, messageerror_monitor)
+            self._backlogs[message.remote].append(entry)
+
+            def cancel_backlogged(self=self, remote=message.remote, entry=entry):
+                # Only has an effect as long as the message is still held back
+                backlog = self._backlogs.get(remote, ())
+                if any(e is entry for e in backlog):
+                    backlog[:] = [e for e in backlog if e is not entry]
+
+            return cancel_backlogged
         else:
             self._send_initially(message, messageerror_monitor)
 
